@@ -33,6 +33,15 @@ def programs(tier):
                     for gen in gens:
                         for extra in ((False, True) if tier != 'quick' or L <= 2 else (False,)):
                             yield L, pos, act, order, gen, extra
+    # work that starts while the loop is already fading out: a `stopped` handler that fires / calls, and a generator handler
+    # that stops the manager and only then calls the next link
+    for L in range(0, 3):
+        for pos in range(0, L + 1):
+            for act in ACTIONS:
+                for sk in ('stopped-fires', 'stopped-calls'):
+                    yield L, pos, act, 'fire-then-stop', None, sk
+                if pos < L and act[0] == 'mstop':
+                    yield L, pos, act, 'stop-then-call', pos, False
 
 
 def build(program):
@@ -43,9 +52,12 @@ def build(program):
         steps = []
         nxt = [('fire', 'c%d' % (i + 1))] if i < L else []
         ex = [('fire', 'x')] if extra else []
+        ex = [('fire', 'x')] if extra is True else []
         if i == pos:
             if order == 'fire-then-stop':
                 body = nxt + ex + [act]
+            elif order == 'stop-then-call':
+                body = [act, ('y', None), ('call', 'c%d' % (i + 1))]
             else:
                 body = ex + [act] + nxt
         else:
@@ -56,6 +68,11 @@ def build(program):
             steps = body
         handlers.append(('h%d' % i, typ, 2, steps))
     handlers.append(('hx', 'x', 2, [('ret', 1)]))
+    if extra == 'stopped-fires':
+        handlers.append(('hs', 'stopped', 2, [('fire', 'x')]))
+    elif extra == 'stopped-calls':
+        handlers.append(('hs', 'stopped', 2, ('gen', [('call', 'cleanup'), ('fire', 'x')])))
+        handlers.append(('hcl', 'cleanup', 2, [('ret', 5)]))
     return handlers
 
 
